@@ -1634,6 +1634,12 @@ func (c *compiler) compileCallInternal(
 				if c.codes[j+2].op == opconst {
 					c.codes[j] = &code{op: oppush, v: c.codes[j+2].v}
 					c.codes = c.codes[:j+1]
+				} else if c.codes[j+2].op == opforklabel {
+					// the label variable lives in the scope of the argument
+					c.append(&code{op: opload, v: v})
+					c.append(&code{op: oppushpc, v: pc})
+					c.append(&code{op: opcallpc})
+					break
 				} else {
 					c.codes[j] = &code{op: opload, v: v}
 					c.codes[j+1] = c.codes[j+2]
